@@ -50,6 +50,11 @@ type World struct {
 	// Overlay, when set before loading, replaces file contents (used by the
 	// sensitivity runs; nothing is written to /repo).
 	Overlay map[string][]byte
+
+	// Inline switches Graph() to the graphs with helpers spliced in.
+	Inline bool
+	// InlineFor restricts inline mode to these declared functions (nil = all).
+	InlineFor map[*FuncInfo]bool
 }
 
 func loadEnv() []string {
